@@ -791,6 +791,29 @@ namespace vc
                 emit_ret(cx.c, "vpush", rt);
                 return true;
             }
+            if (op == "vmove")
+            {
+                // container move assignment between the vector members of two joint objects: joint allocators of
+                // different objects are unequal and do not propagate, so the elements move into the target's own block
+                long s = c.arg(0), s2 = c.arg(1);
+                J*   o = obj(cx, s);
+                J*   q = obj(cx, s2);
+                emit_call(cx.c, "vmove", s, s2, -1, -1, 0, -1);
+                Ret rt;
+                if (!o || !q || o == q)
+                    rt.r = "empty";
+                else
+                {
+                    rt.j   = o->reg.id;
+                    rt.cl0 = static_cast<long>(o->cap_left());
+                    guarded(rt, 0, [&] { o->v = std::move(q->v); });
+                    rt.cl1 = static_cast<long>(o->cap_left());
+                    log_pieces(cx, o);
+                    log_pieces(cx, q);
+                }
+                emit_ret(cx.c, "vmove", rt);
+                return true;
+            }
             if (op == "pieces")
             {
                 long s = c.arg(0);
